@@ -67,7 +67,7 @@ def add_run(ctx, module, cfg, r, count=True):
 
 # families whose point is the presence lattice (large): one magnitude profile per file (rotating with the case);
 # in the thorough tier params / spaced run under all four profiles, shapes / header (and C08's cases) under two
-BIG_FAMS = {"densepair", "densegroups", "waypair", "relpair", "bodies"}
+BIG_FAMS = {"densepair", "densegroups", "waypair", "relpair", "waybody", "relbody"}
 
 
 def profiles_for(ctx, case):
@@ -75,7 +75,7 @@ def profiles_for(ctx, case):
         return "rot1"
     if case.get("fam") in BIG_FAMS:
         return "rot1"
-    return "0,1,2,3" if case.get("fam") in ("params", "spaced") else "rot2"
+    return "0,1,2,3" if case.get("fam") in ("params", "spaced2", "spaced3") else "rot2"
 
 
 def execute(ctx, cases, binname="c01"):
@@ -116,12 +116,16 @@ def run(ctx):
         mc_main = mcpool.submit(cache_mc, ctx, "none", full, ctx.seed, MC_FAMS, 2 if quick else 4)
         mc_bugs = mcpool.submit(lambda: [cache_mc(ctx, b, False, ctx.seed, ["probe"], 1) for b in bugs])
         # case generation, one TLC per family
-        gens = [genpool.submit(gen_family, ctx, fam, full, ctx.seed, "PbfFormatGen", 'CONSTANT Fam = "%s"\n' % fam) for fam in FAMS]
+        # case generation: one TLC per group of families (quick: 2 processes; thorough: one per family, 4 at a time)
+        groups = [["densepair"], [f for f in FAMS if f != "densepair"]] if quick else [[f] for f in FAMS]
+        gens = [genpool.submit(gen_family, ctx, "-".join(g), full, ctx.seed, "PbfFormatGen", "CONSTANT Fams = %s\n" % tla_set(g)) for g in groups]
         cases, per_fam = [], {}
         for g in gens:
-            fam, cs, r = g.result()
-            add_run(ctx, "PbfFormatGen", "Fam=%s Full=%s Seed=%d" % (fam, full, ctx.seed), r, count=False)
-            per_fam[fam] = len(cs)
+            name, cs, r = g.result()
+            add_run(ctx, "PbfFormatGen", "Fams=%s Full=%s Seed=%d" % (name, full, ctx.seed), r, count=False)
+            for c in cs:
+                fam = {"spaced2": "spaced", "spaced3": "spaced", "waybody": "bodies", "relbody": "bodies"}.get(c["fam"], c["fam"])
+                per_fam[fam] = per_fam.get(fam, 0) + 1
             cases += cs
         vlib.log("C01: %d abstract files generated by TLC %s  [t=%.0fs]" % (len(cases), per_fam, time.time() - ctx.t0))
 
@@ -134,7 +138,7 @@ def run(ctx):
         vlib.log("C01: %d scans of the real scanner recorded  [t=%.0fs]" % (nscans, time.time() - ctx.t0))
         ctx.samples = sorted(recs, key=lambda r: len(json.dumps(r)))[:2]     # the two smallest records, verbatim
 
-        judge = lambda rs: vlib.tlc_judge(ctx, "PbfFormatJudge", "PbfFormatJudge.cfg", rs, shards=min(6, max(1, len(rs) // 300)), timeout=2400)
+        judge = lambda rs: vlib.tlc_judge(ctx, "PbfFormatJudge", "PbfFormatJudge.cfg", rs, shards=min(6, max(1, len(rs) // 1500)), timeout=2400)
         vlib.judge_and_confirm(ctx, cases, recs, lambda cs: execute(ctx, cs), judge)
         vlib.log("C01: judged by TLC  [t=%.0fs]" % (time.time() - ctx.t0))
 
